@@ -128,8 +128,8 @@ def gen_supported(ctx, thorough):
     """specs of conforming targets (the sampler must accept and draw exactly)"""
     rng = ctx.rng
     specs = []
-    ngauss = 900 if thorough else 70
-    ngmrf = 1500 if thorough else 110
+    ngauss = 3000 if thorough else 70
+    ngmrf = 5000 if thorough else 110
     for i in range(ngauss):
         n = rng.choice([1, 2, 3, 4, 5, 6, 7, 8, 10, 12, 16, 24, 40] if not thorough else list(range(1, 41)) + [80, 120])
         if i % 23 == 22:
@@ -330,6 +330,33 @@ def stream_supported(ctx, cuqi, thorough):
             if spec["reg"]:
                 continue        # projected posterior has no density to compare with (tie only)
             check_exactness(ctx, tie_key + ":params", f"{iface}:{fk}", desc, spec, post, calls, model, force=not same)
+    stream_retarget(ctx, cuqi, built, outs)
+
+
+def stream_retarget(ctx, cuqi, built, outs):
+    """one experimental sampler object, target re-assigned: every step uses the *current* target's conditional"""
+    ok = [(s, p, o) for (s, p, _), o in zip(built, outs) if o not in ("err", "bad-op")]
+    rng = ctx.rng
+    for _ in range(min(30 * ctx.scale, len(ok) // 2)):
+        seq = [ok[rng.randrange(len(ok))] for _ in range(rng.randint(2, 4))]
+        desc = {"retarget": [family_key(s) for s, _, _ in seq]}
+        ctx.case("retarget-exp", desc)
+        key = "tie:exp:retarget"
+        try:
+            with Capture(cuqi) as cap, quiet():
+                smp = cuqi.experimental.mcmc.Conjugate(seq[0][1])
+                smp.step()
+                for _, post, _ in seq[1:]:
+                    smp.target = post
+                    smp.step()
+        except Exception as e:
+            ctx.disagree(key, desc, "steps", repr(e)[:100], "re-assigning a valid target raised")
+            continue
+        got = [(float(c["shape"][0]), 1.0 / float(c["scale"][0])) for c in cap.calls]
+        want = [(pq(o.split()[0]), pq(o.split()[1])) for _, _, o in seq]
+        if len(got) != len(want) or not all(close(g[0], w[0], SHAPE_TOL) and close(g[1], w[1], SHAPE_TOL) for g, w in zip(got, want)):
+            ctx.disagree(key, desc, [[str(a), str(b)] for a, b in want], got, "after re-assignment the Gamma is not that of the current target")
+            ctx.fail(key, desc, [[float(a), float(b)] for a, b in want], got, "a step after target re-assignment does not draw from the current target's conditional")
 
 
 def check_exactness(ctx, tie_key, known_base, desc, spec, post, calls, model, force=False):
@@ -399,7 +426,7 @@ def dependences(rng, thorough):
         ("interp", "prec", "{x}*(1+" + POLY + "/1e6)", False), ("interp", "cov", "1/({x}*(1+" + POLY + "/1e6))", False),
         ("pow1.000001", "prec", "{x}**1.000001", False),
     ]
-    extra = 40 if thorough else 8
+    extra = 150 if thorough else 8
     for _ in range(extra):
         c = rng.choice([1, 1, 2, 0.5, 1 + 2.0 ** -18, 1 - 2.0 ** -16, 3])
         p = rng.choice([-2, -1, 1, 2, 3])
@@ -487,7 +514,7 @@ def gen_validation(ctx, cuqi, thorough):
             return D.Posterior(y.to_likelihood(b), gamma(nm)), [("mean", y.mean), (key, f)]
         add(f"reggaussian:{key}:{label}", "reggaussian", mkR, conf, "reg", par=nm)
         if key == "prec":
-            for bc in (["zero"] if not thorough else BCS):
+            for bc in ["zero"]:   # the boundary condition plays no role in validation; periodic/neumann sampling is stream A
                 def mkM(f=f, nm=nm, bc=bc):
                     x = D.GMRF(np.zeros(n), prec=f, bc_type=bc, name="x")
                     return D.Posterior(x.to_likelihood(b), gamma(nm)), [("mean", x.mean), ("prec", f)]
@@ -692,7 +719,7 @@ def stream_approx(ctx, cuqi, thorough):
     from cuqi.geometry import Image2D
     rng = ctx.rng
     cases = []
-    for i in range(200 if thorough else 24):
+    for i in range(600 if thorough else 24):
         pd = 1 if rng.random() < 0.7 else 2
         n = rng.randint(2, 20) if pd == 1 else rng.randint(2, 5)
         bc = rng.choice(BCS)
@@ -748,7 +775,7 @@ def stream_direct(ctx, cuqi, thorough):
     ]
     runs = []
     for name, mk in targets:
-        for rep in range(4 if thorough else 2):
+        for rep in range(10 if thorough else 2):
             runs.append((name, mk, rng.randint(0, 6), rng.randint(0, 3), rng.choice([1, 1, 2])))
     lines = [f"direct {nv} {nb + ns}" for _, _, ns, nb, nv in runs]
     outs = ctx.lean.drive(lines)
